@@ -54,6 +54,26 @@ MISSED = {
     "C16-4": "JSON decoder variant",
     "C18-3": "document-less input first through a re-used eval-all decoder",
     "C19-4": "companion flags of `-e` (`-0`, `-N`, `-P` ...)",
+    "C01-5": "comparisons of integers that differ but are the same float64 (beyond 2^53)",
+    "C02-5": "`rhsmerge` law: `p = (A op B)` with A, B containers of the same document",
+    "C03-6": "`mapderived` family: deletes from a map just built by + / * of maps sharing keys",
+    "C06-5": "merge of a merge list (`<<: *X`, X: `<<: [*a, *b]`) and sub-tree conversion",
+    "C07-6": "line family: appends of existing maps whose style differs from the destination's",
+    "C10-5": "files stamped from one template (anchor names redefined per document) + explode templates",
+    "C10-6": "regular expressions taken from the document (variable / interpolation)",
+    "C11-5": "comments that are nothing but `#`; quick tier 100 k cases",
+    "C11-6": "index deletes on empty arrays (`del(.a[0])` twice ...)",
+    "C13-6": "second pass: the document as yq itself writes it back (`!!merge <<`)",
+    "C14-6": "in-expression XML encoder compared with -o=xml under non-default preferences",
+    "C15-6": "decimal integers written with leading zeros next to floats",
+    "C16-5": "explode of merge arrangements (lists sharing keys, key before the merge, merge of a merge)",
+    "C16-6": "writes beyond the end of a sequence (padding elements)",
+    "C17-6": "boundary code points (U+FFFD ...)",
+    "C19-5": "malformed spot between the documents of a JSON stream",
+}
+REGRESSED = {
+    "C11-1": "caught when delivered (4 violation lines), lost when the generator grew (0 of 40 k cases), caught again after reversed slices were made denser and the quick tier raised to 100 k cases",
+    "C11-2": "caught when delivered (1 violation line), lost when the generator grew, caught again after header-terminated TOML inputs were added to the corpus",
 }
 NEUTRALISED = {
     "C08-4": "confirmed when delivered (demo failed on the changed tree); the repair cc8e78b in /repo (encodeToString prints a copy) "
@@ -88,7 +108,7 @@ for name in sorted(os.listdir(src)):
     for f in os.listdir(d):
         if f in ("patch.diff", "demo.sh") or f.endswith("_test.go"):
             shutil.copy(os.path.join(d, f), os.path.join(out, f))
-    rnd = 1 if name[-1] in "12" else 2
+    rnd = {"1": 1, "2": 1, "3": 2, "4": 2}.get(name[-1], 3)
     new = {
         "id": name,
         "property": meta.get("property", name[:3]),
@@ -110,6 +130,8 @@ for name in sorted(os.listdir(src)):
         new["check_strengthened_with"] = MISSED[name]
     else:
         new["initially_missed"] = False
+    if name in REGRESSED:
+        new["detection_history"] = REGRESSED[name]
     if neutral:
         new["neutralised_by_repair"] = NEUTRALISED[name]
         new["caught"] = False
